@@ -417,6 +417,7 @@ namespace bxdecay0 {
     if (_decay_category_ == DECAY_CATEGORY_DBD) {
       if (_pimpl_->use_dbd_ga) {
         _pimpl_->dbd_ga_process.shoot(prng_, event_);
+        event_.set_generator(_decay_isotope_);
       } else {
         bxdecay0::genbbsub(prng_,
                            event_,
@@ -517,6 +518,10 @@ namespace bxdecay0 {
         }
         if (_decay_dbd_level_ != 0) {
           throw std::logic_error("bxdecay0::decay0_generator::_init_: Unsupported level of the daughter nucleus!");
+        }
+        if (!std::isnan(_energy_min_) || !std::isnan(_energy_max_)) {
+          throw std::logic_error("bxdecay0::decay0_generator::_init_: DBD mode '"
+                                 + dbd_mode_label(_decay_dbd_mode_) + "' does not support an energy range !");
         }
         _pimpl_->dbd_ga_process.set_shooting(dbd_gA::SHOOTING_INVERSE_TRANSFORM_METHOD);
         _pimpl_->use_dbd_ga = true;
